@@ -1,0 +1,265 @@
+//! Verification wrappers (compiled only with `--cfg polytune_verif`).
+//!
+//! Plain-data entry points to crate-private building blocks so that an external harness can
+//! drive them and record their inputs and outputs: the chunked buffer, the bit-matrix
+//! transpose, carry-less multiplication, the fixed-key AES hashes and the AES generator, the
+//! distributed preprocessing (coin tossing, aShare, aAND/Beaver) and the trusted dealer.
+//! Nothing here changes the behaviour of the wrapped code.
+#![allow(missing_docs)]
+
+use std::path::Path;
+
+use rand::{RngCore, SeedableRng};
+
+use crate::{
+    block::Block,
+    channel::Channel,
+    crypto::{AesRng, FIXED_KEY_HASH},
+    mpc::{
+        data_types::{Delta, Share},
+        faand::{beaver_aand, bucket_size, fashare, shared_rng, shared_rng_pairwise},
+    },
+    utils::file_or_mem_buf::FileOrMemBuf,
+};
+
+// ---- chunked buffer ---------------------------------------------------------------------
+
+#[derive(Debug, Clone)]
+pub enum BufOp {
+    Append(Vec<u64>),
+    Iter,
+    Next,
+    DropIter,
+    Chunks(usize),
+    NextChunk,
+    DropChunks,
+}
+
+#[derive(Debug, Clone, PartialEq)]
+pub enum BufRet {
+    Unit,
+    Item(Option<u64>),
+    Chunk(Option<Vec<u64>>),
+    Err(String),
+}
+
+/// Runs a script of buffer operations on a `FileOrMemBuf<u64>` (file backed iff `dir` is given).
+/// `Next` / `NextChunk` outside a live iterator and appends while one is live are reported as
+/// `Err` (the borrow checker rules them out in the crate itself).
+pub fn run_buf_script(dir: Option<&Path>, ops: &[BufOp]) -> Vec<BufRet> {
+    let mut out = vec![];
+    let mut buf: FileOrMemBuf<u64> = match FileOrMemBuf::new(dir, 0) {
+        Ok(b) => b,
+        Err(e) => return vec![BufRet::Err(format!("{e:?}"))],
+    };
+    let mut k = 0;
+    while k < ops.len() {
+        match &ops[k] {
+            BufOp::Append(items) => {
+                out.push(match buf.write_chunk(items) {
+                    Ok(()) => BufRet::Unit,
+                    Err(e) => BufRet::Err(format!("{e:?}")),
+                });
+                k += 1;
+            }
+            BufOp::Iter => {
+                match buf.iter() {
+                    Ok(mut it) => {
+                        out.push(BufRet::Unit);
+                        k += 1;
+                        while k < ops.len() {
+                            match &ops[k] {
+                                BufOp::Next => {
+                                    out.push(match it.next() {
+                                        None => BufRet::Item(None),
+                                        Some(Ok(v)) => BufRet::Item(Some(v)),
+                                        Some(Err(e)) => BufRet::Err(format!("{e:?}")),
+                                    });
+                                    k += 1;
+                                }
+                                BufOp::DropIter => {
+                                    out.push(BufRet::Unit);
+                                    k += 1;
+                                    break;
+                                }
+                                _ => {
+                                    out.push(BufRet::Err("iterator is live".into()));
+                                    k += 1;
+                                }
+                            }
+                        }
+                        drop(it);
+                    }
+                    Err(e) => {
+                        out.push(BufRet::Err(format!("{e:?}")));
+                        k += 1;
+                    }
+                }
+            }
+            BufOp::Chunks(size) => {
+                match buf.chunks(*size) {
+                    Ok(mut it) => {
+                        out.push(BufRet::Unit);
+                        k += 1;
+                        while k < ops.len() {
+                            match &ops[k] {
+                                BufOp::NextChunk => {
+                                    out.push(match it.next() {
+                                        None => BufRet::Chunk(None),
+                                        Some(Ok(v)) => BufRet::Chunk(Some(v.into_owned())),
+                                        Some(Err(e)) => BufRet::Err(format!("{e:?}")),
+                                    });
+                                    k += 1;
+                                }
+                                BufOp::DropChunks => {
+                                    out.push(BufRet::Unit);
+                                    k += 1;
+                                    break;
+                                }
+                                _ => {
+                                    out.push(BufRet::Err("iterator is live".into()));
+                                    k += 1;
+                                }
+                            }
+                        }
+                        drop(it);
+                    }
+                    Err(e) => {
+                        out.push(BufRet::Err(format!("{e:?}")));
+                        k += 1;
+                    }
+                }
+            }
+            BufOp::Next | BufOp::NextChunk | BufOp::DropIter | BufOp::DropChunks => {
+                out.push(BufRet::Err("no live iterator".into()));
+                k += 1;
+            }
+        }
+    }
+    out
+}
+
+// ---- primitives -------------------------------------------------------------------------
+
+/// The dispatching transpose (AVX2 if available).
+pub fn transpose_dispatch(input: &[u8], output: &mut [u8], rows: usize) {
+    crate::transpose::transpose_bitmatrix(input, output, rows)
+}
+
+/// The portable transpose.
+pub fn transpose_portable(input: &[u8], output: &mut [u8], rows: usize) {
+    crate::transpose::verif_portable(input, output, rows)
+}
+
+/// `(low, high)` of the dispatching carry-less multiplication.
+pub fn clmul_dispatch(a: u128, b: u128) -> (u128, u128) {
+    let (l, h) = Block::from(a).clmul(&Block::from(b));
+    (l.into(), h.into())
+}
+
+/// `(low, high)` of the scalar carry-less multiplication.
+pub fn clmul_scalar(a: u128, b: u128) -> (u128, u128) {
+    crate::block::verif_clmul_scalar(a, b)
+}
+
+pub fn cr_hash(x: [u8; 16]) -> [u8; 16] {
+    FIXED_KEY_HASH.cr_hash_block(Block::from(x)).into()
+}
+
+pub fn tccr_hash(tweak: [u8; 16], x: [u8; 16]) -> [u8; 16] {
+    FIXED_KEY_HASH
+        .tccr_hash_block(Block::from(tweak), Block::from(x))
+        .into()
+}
+
+/// `fill_bytes` calls of the given lengths on one `AesRng::from_seed(seed)`.
+pub fn aes_rng_fill(seed: [u8; 16], lens: &[usize]) -> Vec<Vec<u8>> {
+    let mut rng = AesRng::from_seed(Block::from(seed));
+    lens.iter()
+        .map(|l| {
+            let mut v = vec![0u8; *l];
+            rng.fill_bytes(&mut v);
+            v
+        })
+        .collect()
+}
+
+// ---- preprocessing ----------------------------------------------------------------------
+
+/// An authenticated share as plain integers: `macs[k]`, `keys[k]` per peer k (0 for own index).
+#[derive(Debug, Clone)]
+pub struct PShare {
+    pub bit: bool,
+    pub macs: Vec<u128>,
+    pub keys: Vec<u128>,
+}
+
+impl From<&Share> for PShare {
+    fn from(s: &Share) -> Self {
+        PShare {
+            bit: s.0,
+            macs: s.1.0.iter().map(|(m, _)| m.0).collect(),
+            keys: s.1.0.iter().map(|(_, k)| k.0).collect(),
+        }
+    }
+}
+
+#[derive(Debug, Clone)]
+pub struct PreOut {
+    pub delta: u128,
+    /// `l_rand` random authenticated shares
+    pub shares: Vec<PShare>,
+    /// AND shares for `(shares[2k], shares[2k+1])`, `k < l_and`
+    pub ands: Vec<PShare>,
+    /// first draw of the multi-party shared generator after preprocessing
+    pub multi_coin: u64,
+    /// first draw of the pairwise shared generator with each peer
+    pub pair_coins: Vec<Option<u64>>,
+    pub bucket: usize,
+}
+
+/// Party `i` of the distributed preprocessing: coin tossing, `l_rand` random shares and the
+/// authenticated AND shares of the first `l_and` pairs of them.
+pub async fn preprocess(
+    channel: &impl Channel,
+    i: usize,
+    n: usize,
+    l_rand: usize,
+    l_and: usize,
+) -> Result<PreOut, crate::Error> {
+    let delta = Delta(rand::random());
+    let mut two = shared_rng_pairwise(channel, i, n).await?;
+    let mut multi = shared_rng(channel, i, n).await?;
+    let shares = fashare((channel, delta), i, n, l_rand, &mut two, &mut multi).await?;
+    let mut ands = vec![];
+    let b = bucket_size(l_and);
+    if l_and > 0 {
+        let alpha_beta: Vec<(Share, Share)> = (0..l_and)
+            .map(|k| (shares[2 * k].clone(), shares[2 * k + 1].clone()))
+            .collect();
+        let xyz = fashare((channel, delta), i, n, l_and * b * 3, &mut two, &mut multi).await?;
+        ands = beaver_aand((channel, delta), &alpha_beta, i, n, l_and, &mut multi, &xyz).await?;
+    }
+    let multi_coin = multi.next_u64();
+    let pair_coins = (0..n)
+        .map(|k| {
+            let (a, c) = if i < k { (i, k) } else { (k, i) };
+            two[a][c].as_mut().map(|r| r.next_u64())
+        })
+        .collect();
+    Ok(PreOut {
+        delta: delta.0,
+        shares: shares.iter().map(PShare::from).collect(),
+        ands: ands.iter().map(PShare::from).collect(),
+        multi_coin,
+        pair_coins,
+        bucket: b,
+    })
+}
+
+/// The trusted dealer serving `parties` parties over `channel`.
+pub async fn run_dealer(channel: &(impl Channel + Send), parties: usize) -> Result<(), String> {
+    crate::mpc::fpre::fpre(channel, parties)
+        .await
+        .map_err(|e| format!("{e:?}"))
+}
